@@ -2,9 +2,12 @@ package an
 
 import (
 	"fmt"
+	"go/types"
 	"regexp"
 	"sort"
 	"strings"
+
+	"golang.org/x/tools/go/ssa"
 )
 
 func init() {
@@ -49,6 +52,8 @@ func runC01(w *World) *Result {
 	ExitRule(w, bash, batch, r, "R-C01-exit")
 	r.Rule("R-C01-lower", "for / if lowering follows the protocol (init, ForStart, guarded increment, condition, ForCondition, body, ForEnd; all conditions before IfStart)", 2)
 	ProtoRule(w, r, "R-C01-lower", func(n string) bool { return n == "For" || n == "If" || n == "Block" })
+	r.Rule("R-C01-reentrant", "handlers that nest (if inside if) collect their values in locals, not in the shared driver object", 3)
+	ReentrantRule(w, r, "R-C01-reentrant")
 	r.Rule("R-C01-prec", "operator levels of the expression parser follow Go's precedence; all levels left-associative; every operator on one level", 8)
 	PrecRule(w, r, "R-C01-prec")
 	r.Rule("R-C01-dispatch", "every constructed node kind has its handler", 25)
@@ -282,4 +287,79 @@ func c05BlockExit(w *World, b *Backend, r *Result) {
 			}
 		}
 	}
+}
+
+// ReentrantRule: the handlers of the driver call each other recursively (a branch contains
+// statements that contain branches). A list a handler fills and reads back later therefore
+// has to live in the activation (a local), not in the shared driver object: a nested
+// activation would overwrite what the outer one reads after it returns.
+func ReentrantRule(w *World, r *Result, rule string) {
+	tp := w.Pkgs["transpiler"]
+	if tp == nil {
+		r.Bad(rule, "reentrant:package", "-", "transpiler package not found")
+		return
+	}
+	n := 0
+	for _, fn := range w.Funcs("transpiler") {
+		if fn.Signature.Recv() == nil || len(fn.Params) == 0 || len(fn.Blocks) == 0 {
+			continue
+		}
+		recvT := fn.Params[0].Type()
+		k := 0
+		for _, b := range fn.Blocks {
+			for _, ins := range b.Instrs {
+				call, ok := ins.(*ssa.Call)
+				if !ok {
+					continue
+				}
+				bi, ok := call.Call.Value.(*ssa.Builtin)
+				if !ok || bi.Name() != "append" {
+					continue
+				}
+				k++
+				n++
+				key := fmt.Sprintf("reentrant:%s:list#%d", FuncName(fn), k)
+				root := listRoot(call.Call.Args[0], map[ssa.Value]bool{}, 0)
+				shared := ""
+				for _, rt := range root {
+					if ld, ok := rt.(*ssa.UnOp); ok {
+						if fa, ok := ld.X.(*ssa.FieldAddr); ok && types.Identical(fa.X.Type(), recvT) {
+							shared = structFieldName(fa.X.Type(), fa.Field)
+						}
+					}
+				}
+				if shared != "" {
+					r.Bad(rule, fmt.Sprintf("reentrant:%s:field:%s", FuncName(fn), shared), w.Pos(call.Pos()), fmt.Sprintf("%s collects values in the field %s of the shared driver object: a nested construct handled by the same function overwrites them before the outer construct has used them", FuncName(fn), shared))
+				} else {
+					r.Ok(rule, key, w.Pos(call.Pos()), "the list this handler fills is local to the activation")
+				}
+			}
+		}
+	}
+	if n == 0 {
+		r.Triv(rule, "reentrant:none", "-", "no handler of the driver collects values in a list")
+	}
+}
+
+// listRoot: what an append chain starts from (through phis, re-slicing and earlier appends).
+func listRoot(v ssa.Value, seen map[ssa.Value]bool, d int) []ssa.Value {
+	if d > 10 || seen[v] {
+		return nil
+	}
+	seen[v] = true
+	switch x := v.(type) {
+	case *ssa.Phi:
+		var out []ssa.Value
+		for _, e := range x.Edges {
+			out = append(out, listRoot(e, seen, d+1)...)
+		}
+		return out
+	case *ssa.Slice:
+		return listRoot(x.X, seen, d+1)
+	case *ssa.Call:
+		if bi, ok := x.Call.Value.(*ssa.Builtin); ok && bi.Name() == "append" {
+			return listRoot(x.Call.Args[0], seen, d+1)
+		}
+	}
+	return []ssa.Value{v}
 }
